@@ -196,7 +196,6 @@ var _ = kit.Register(kit.Prop[RTCase]{
 // ---------------------------------------------------------------------------------
 // (c) accept => canonical, (d) safety: one decode of one byte string as one type
 
-
 type outcome struct {
 	accepted bool
 	viol     *kit.Violation
